@@ -26,15 +26,22 @@ TRUSTED = [
     "(pyDec, utf16be, b64nopad) — each is also run against the model on this run's cases (ops pydec/pyenc/u16/b64)",
     "Python int(bytes, 16) on slices of at most two bytes as transcribed in TwistedModel/Mail/Xtext.lean (pyIntHex; "
     "exhaustively compared in the thorough tier)",
+    "harness/py2lean.py (translator: smtp.xtext_encode is regenerated into lean/Generated/Xtext.lean on every run — the for-loop "
+    "over iterbytes(s) as List.foldl of the generated loop body, ord(ch) as the byte value (< 256), the +/=/<33/>126 test "
+    "literally, networkString(f'+{o:02X}') as 43 :: two upper-case hex digits (pyFmt02X), b''.join(r) as flatten; "
+    "translator-regenerated kernel proved equal to the model: TwistedProps.C41.gen_xtextEncode; round trip and RFC 3461 form "
+    "restated over the regenerated encoder: gen_xtext_decode_encode, gen_xtext_output_rfc3461)",
 ]
 MANIFEST = {
     "text": "Lean theorems (TwistedProps/C41.lean): for every str without surrogate code points the model of imap4.encoder "
             "produces printable ASCII that is a rendering of an RFC 3501 token list meaning exactly that str, and the model "
             "of imap4.decoder (incl. CPython's utf-7 decoder at bit level) maps it back; for every byte string the model of "
-            "smtp.xtext_encode produces RFC 3461 xtext and xtext_decode maps it back. Models tied to imap4.py/smtp.py and "
+            "smtp.xtext_encode produces RFC 3461 xtext and xtext_decode maps it back; xtext_encode is regenerated from smtp.py by the "
+            "translator on every run and proved equal to the model's (gen_xtextEncode). Models tied to imap4.py/smtp.py and "
             "to CPython's codecs by differential runs.",
     "note": "trusts Lean kernel, the hand-written models (differentially tied on every run), CPython codecs as transcribed",
-    "technique": "Lean 4 proof (bit-stream base64/UTF-16 inversion, induction over the encoder loop) + differential tie",
+    "technique": "Lean 4 proof (bit-stream base64/UTF-16 inversion, induction over the encoder loop) + differential tie + "
+                 "translator-regenerated kernel (xtext_encode) proved equal to the model",
     "design_ref": "DESIGN.md §7 C41",
 }
 
